@@ -30,7 +30,7 @@ Ranks == 0..MaxRank
 Stream(r) == [id |-> ToString(r), src |-> "buf", rank |-> r]
 MCLess(a, b) == a.rank < b.rank
 
-Obs(sig, site, ended, nfw) == [sig |-> sig, site |-> site, msg |-> site, ended |-> ended, nfw |-> nfw, draws |-> <<>>, msgs |-> IF sig = "none" THEN {} ELSE {site}]
+Obs(sig, site, ended, nfw) == [sig |-> sig, site |-> site, msg |-> site, ended |-> ended, nfw |-> nfw, draws |-> <<>>, msgs |-> IF sig = "none" THEN {} ELSE {site}, inInv |-> FALSE, invSkip |-> FALSE]
 BehAll == { Obs("none", "", "ret", ""), Obs("none", "", "skip", ""),
             Obs("fatal", "A", "unwind", ""), Obs("fatal", "B", "unwind", ""), Obs("panic", "P", "unwind", ""),
             Obs("nonfatal", "NF", "ret", "body"), Obs("nonfatal", "NF", "skip", "body"),
